@@ -144,7 +144,8 @@ fn run_race(env: &mut Env, rep: &mut Report, st: &mut Stats, kind: Kind, order: 
 
     // the client is still healthy: next call, late response in between, bystanders answered in random order
     let ytok = env.token();
-    let y = calls.launch(env, &cli, ytok, rng.usize_below(24), if rng.coin() { None } else { Some(Duration::from_secs(40)) });
+    // (blocking client: from the very thread whose call just timed out, as an application loop would)
+    let y = calls.launch_same_thread(env, &cli, x, ytok, rng.usize_below(24), if rng.coin() { None } else { Some(Duration::from_secs(40)) });
     if !srv.wait_reqs(bystanders + 2, STEP_MAX) {
         srv.poll();
         let miss = calls.wait(&[y], Duration::from_millis(200));
